@@ -86,6 +86,11 @@ impl<T> VRepeat<T> {
         ensures r.items() == Seq::new(n as nat, |k: int| self.x)
     { unimplemented!() }
 }
+// core::iter::repeat_n
+#[verifier::external_body]
+pub fn repeat_n<T>(x: T, n: usize) -> (r: VSeqIter<T>)
+    ensures r.items() == Seq::new(n as nat, |k: int| x)
+{ unimplemented!() }
 pub broadcast proof fn lemma_interleave_len<T>(a: Seq<T>, b: Seq<T>)
     ensures #[trigger] interleave_seq(a, b).len() == a.len() + b.len()
     decreases a.len() + b.len()
